@@ -40,6 +40,7 @@ def firstlast_post(ns, nswin, overlap, Yf, Yl, k):
         ("closed_form", z3.ForAll([j], z3.Implies(z3.And(j >= 0, j < k), Yf(j) == j * stride))),
         ("last_clip", z3.ForAll([j], z3.Implies(z3.And(j >= 0, j < k), Yl(j) == z3.If(Yf(j) + nswin <= ns, Yf(j) + nswin, ns)))),
         ("nonfinal_short_of_end", z3.ForAll([j], z3.Implies(z3.And(j >= 0, j < k - 1), Yl(j) < ns))),
+        ("in_range", z3.ForAll([j], z3.Implies(z3.And(j >= 0, j < k), z3.And(Yf(j) >= 0, Yf(j) < Yl(j), Yl(j) <= ns)))),
         ("final_reaches_end", Yl(k - 1) == ns),
     ]
 
@@ -79,12 +80,17 @@ def firstlast_summary(it, args, kwargs):
     k = z3.Int(fresh_name("K"))
     for c, (cid, f) in zip(pre(ns, nswin, overlap), [("ns", 0), ("nswin", 0), ("ov0", 0), ("ov1", 0)]):
         it.ctx.oblige(f"firstlast.pre.{cid}", c, "pre")
-    for cid, f in firstlast_post(ns, nswin, overlap, Yf, Yl, k):
+    posts = firstlast_post(ns, nswin, overlap, Yf, Yl, k)
+    for cid, f in posts:
         it.ctx.assume(f)
     obj.attrs["iw"] = 0
 
     def on_iter(j):
         obj.attrs["iw"] = SV(j)          # proved: self.iw == j at the j-th yield (invariant `S.iw == k`)
+        # ground instances of the contract at this window (keeps slice bounds like first:last free of clamping cases)
+        for cid, f in posts:
+            if z3.is_quantifier(f) and f.num_vars() == 1 and cid in ("in_range", "last_clip", "closed_form"):
+                it.ctx.instantiate(f, j)
     sit = SIter(k, lambda j: (SV(Yf(j)), SV(Yl(j))), on_iter)
     sit.Y = (Yf, Yl)
     it.last_firstlast = sit
